@@ -267,6 +267,17 @@ def main(cli_argv=None, return_args=False):
                 "--truth must be an existent file. Got: {!r}".format(truth_file)
             )
 
+        for kind in "argparse_function", "class", "function":
+            if (
+                getattr(args, pluralise(kind)) is not None
+                and getattr(args, "{}_names".format(kind)) is None
+            ):
+                _parser.error(
+                    "--{kind}-name must be specified with --{kind}".format(
+                        kind=kind.replace("_", "-")
+                    )
+                )
+
         return args if return_args else ground_truth(args, truth_file)
     elif command == "sync_properties":
         for fname in "input_filename", "output_filename":
